@@ -146,6 +146,31 @@ class ParamEffects:
         out = {}
         if not pidx:
             return out
+        # local pointers that walk a parameter's buffer (`p = seq + 8; ... (*--p)++`): what is done through them is done
+        # through the parameter
+        pidx = dict(pidx)
+        grew = True
+        while grew:
+            grew = False
+            for b, ln, n in fn.nodes():
+                dst = rhs = None
+                if n.get("k") == "decl" and "init" in n:
+                    dst, rhs = n.get("var"), n["init"]
+                elif n.get("k") == "bin" and n["op"] == "=" and (strip(n["l"]) or {}).get("k") == "var":
+                    dst, rhs = strip(n["l"]), n["r"]
+                if dst is None or "id" not in dst or dst["id"] in pidx or "*" not in (dst.get("t") or ""):
+                    continue
+                r_ = strip(rhs)
+                while r_ is not None and r_.get("k") == "cast":
+                    r_ = strip(r_["e"])
+                if r_ is not None and r_.get("k") == "un" and r_["op"] == "*":
+                    continue
+                if r_ is not None and r_.get("k") == "idx":
+                    continue
+                v = root_var(rhs)
+                if v is not None and v.get("id") in pidx and field_of(rhs) is None:
+                    pidx[dst["id"]] = pidx[v["id"]]
+                    grew = True
         for b, ln, n in fn.nodes():
             k = n.get("k")
             if k == "un" and n["op"] in ("++", "post++", "--", "post--"):
